@@ -31,7 +31,7 @@ pub fn def() -> CheckDef {
             real: super::REAL_COMPONENTS,
             stub: super::STUB_COMPONENTS,
         },
-        runs: |t| if t.thorough() { 5_000 } else { 64 },
+        runs: |t| if t.thorough() { 5_000 } else { 256 },
         run,
         execute,
         expected_probes: &["clause1_checked", "clause2_checked", "resume_reused_entry", "followup_backup_ok", "dedup_hit"],
